@@ -236,6 +236,8 @@ func absSchemaToOpenAPI(a any) map[string]any {
 			out[f] = x
 		case "nullable", "uniqueItems", "exclusiveMinimum", "exclusiveMaximum", "readOnly", "writeOnly":
 			out[f] = x
+		case "disc":
+			out["discriminator"] = map[string]any{"propertyName": x}
 		case "apFalse":
 			out["additionalProperties"] = false
 		case "apSchema":
@@ -290,6 +292,10 @@ func openAPIToAbsSchema(o map[string]any) (any, bool) {
 		switch f {
 		case "type", "pattern", "nullable", "uniqueItems", "exclusiveMinimum", "exclusiveMaximum", "readOnly", "writeOnly", "format":
 			out[f] = x
+		case "discriminator":
+			if dm, ok := x.(map[string]any); ok {
+				out["disc"] = dm["propertyName"]
+			}
 		case "additionalProperties":
 			if b, isb := x.(bool); isb {
 				if !b {
